@@ -818,7 +818,7 @@ func allShapes() []shape {
 				wf := compose.NewWorkflow[M, M]()
 				wf.AddLambdaNode("a", f.M(0)).AddInput(S)
 				wf.AddLambdaNode("b", f.M(1)).AddInput("a", compose.ToField("p")).SetStaticValue(compose.FieldPath{"k"}, "Kst")
-				wf.AddLambdaNode("c", f.M(2)).AddDependency("a").SetStaticValue(compose.FieldPath{"k2"}, "Qst")
+				wf.AddLambdaNode("c", f.M(2)).AddDependency("a") // control only: c runs on the zero input
 				wf.End().AddInput("b", compose.ToField("rb")).AddInput("c", compose.ToField("rc"))
 				r, err := wf.Compile(context.Background())
 				if err != nil {
@@ -829,8 +829,25 @@ func allShapes() []shape {
 			model: func(e *eval, x any) any {
 				ya := e.m(0, x.(M))
 				yb := e.m(1, M{"p": ya, "k": "Kst"})
-				yc := e.m(2, M{"k2": "Qst"})
+				yc := e.m(2, M{})
 				return M{"rb": yb, "rc": yc}
+			}},
+		{name: "wf-dep-static", feat: "workflow-static", npos: 2, inputs: inM,
+			build: func(f *factory) (runner, error) {
+				wf := compose.NewWorkflow[M, M]()
+				wf.AddLambdaNode("a", f.M(0)).AddInput(S)
+				wf.AddLambdaNode("b", f.M(1)).AddDependency("a").SetStaticValue(compose.FieldPath{"k2"}, "Qst")
+				wf.End().AddInput("a", compose.ToField("ra")).AddInput("b", compose.ToField("rb"))
+				r, err := wf.Compile(context.Background())
+				if err != nil {
+					return nil, err
+				}
+				return runnerT[M, M]{r}, nil
+			},
+			model: func(e *eval, x any) any {
+				ya := e.m(0, x.(M))
+				yb := e.m(1, M{"k2": "Qst"})
+				return M{"ra": ya, "rb": yb}
 			}},
 
 		// ---- Workflow: struct fields in both directions
